@@ -39,6 +39,7 @@ TEMPLATES = {
     "hardstr": ('<field type="string" length="2">ab</field>', False),
     "lenstr": ('<length name="n{i}" type="char"/><field name="f{i}" type="string" length="n{i}"/>', False),
     "lenstroff": ('<length name="n{i}" type="short" offset="1"/><field name="f{i}" type="encoded_string" length="n{i}"/>', False),
+    "lenstrneg": ('<length name="n{i}" type="char" offset="-2"/><field name="f{i}" type="string" length="n{i}"/>', False),
     "lenarr": ('<length name="n{i}" type="char"/><array name="f{i}" type="S" length="n{i}"/>', False),
     "lenarroff": ('<length name="n{i}" type="char" offset="-1"/><array name="f{i}" type="short" length="n{i}"/>', False),
     "arr2": ('<array name="f{i}" type="char" length="2"/>', False),
